@@ -766,6 +766,12 @@ def _one_case(ctx, spec, i, cfg, tmp):
     save_kw = {}
     if stateful and not case["with_mixing_matrix"]:
         save_kw["with_mixing_matrix"] = False
+    # documented: further keywords are writing options (handed to json.dump): the layout of the file, never its content
+    dump_kw = [{}, {}, {"indent": None}, {"sort_keys": True}, {"indent": 4, "sort_keys": True}, {"separators": (",", ":")}][int(rng.integers(6))]
+    if dump_kw:
+        save_kw.update(dump_kw)
+        case["json_dump_options"] = {k: (list(v) if isinstance(v, tuple) else v) for k, v in dump_kw.items()}
+        ctx.count("saves_with_json_dump_options")
     try:
         if case["path_style"] == "pathlib":
             from pathlib import Path
